@@ -339,9 +339,20 @@ def j_out(w, h):
             "has_road": None if h is None else h.name}
 
 
-def poshash(pos):
-    d = takio.j_pos(pos)
-    return hashlib.sha256(json.dumps([d["size"], d["ply"] % 2, d["stones"], d["board"]]).encode()).hexdigest()[:16]
+def pack(pos):
+    """compact, hashable form of a position (kept for every case; expanded only for failing ones)"""
+    return (pos.size, pos.ply, tuple((st.stones, st.caps) for st in pos.stones),
+            ";".join(" ".join(takio.c_piece(x) for x in sq) for sq in pos.board))
+
+
+def unpack(pk):
+    n, ply, stones, b = pk
+    return takio.mk_pos({"size": n, "ply": ply, "stones": [list(x) for x in stones],
+                         "board": [sq.split() for sq in b.split(";")]})
+
+
+def poshash(pk):
+    return hashlib.sha256(repr((pk[0], pk[1] % 2, pk[2], pk[3])).encode()).hexdigest()[:16]
 
 
 def outcome_class(w):
@@ -421,8 +432,9 @@ def streams(run, scale=1.0):
 
 
 # --------------------------------------------------------------------------
-def _report(run, cs, meta, extra=None):
-    pos = takio.mk_pos(meta["position"])
+def _report(run, meta, extra=None):
+    pos = unpack(meta["pk"])
+    jp = takio.j_pos(pos)
     w, h, crash = observe(pos)
     ow, oh, _ = oracle(pos)
     if crash:
@@ -431,32 +443,70 @@ def _report(run, cs, meta, extra=None):
     else:
         clause = clause_of(pos, w, h, ow, oh)
         impl = j_out(w, h)
-    rp = {"clause": clause, "input": {"position": meta["position"], "category": meta["category"]},
+    rp = {"clause": clause, "input": {"position": jp, "category": meta["category"]},
           "impl_output": impl, "property_says": j_out(ow, oh)}
     if extra:
         rp.update(extra)
-    run.violation(f"{clause.split(':')[0]}|{meta['hash']}", rp)
+    run.violation(f"{clause.split(':')[0]}|{poshash(meta['pk'])}", rp)
+
+
+BATCH = 60000
 
 
 def correspondence(run):
     core.setup_impl()
-    t0 = time.time()
-    cs = core.Cases(ID, "adjudicate", HEADER, CTYPE, CHECK, show=SHOW, shard=320)
     seen = set()
     dist = {"size": {}, "category": {}, "outcome": {}, "reserve_end": 0, "both_roads": 0}
-    nontrivial = 0
-    crashes = []
-    samples = []
+    st = {"nontrivial": 0, "total": 0, "gen_s": 0.0, "coq_s": 0.0, "shards": 0, "reported": 0, "disagree": 0}
+    crashes, samples, shard_fails = [], [], []
+
+    def flush(cs):
+        if not len(cs):
+            return
+        # balance the shards (an 8x8 full board costs ~40 ms in Coq, a 3x3 one < 1 ms): corpus first, rest shuffled
+        k0 = sum(1 for m in cs.metas if m["category"].startswith("corpus:"))
+        order = list(range(k0, len(cs.terms)))
+        run.rng.shuffle(order)
+        order = list(range(k0)) + order
+        cs.terms = [cs.terms[i] for i in order]
+        cs.metas = [cs.metas[i] for i in order]
+        t1 = time.time()
+        failing, shard_fail, nshards = cs.run()
+        st["coq_s"] += time.time() - t1
+        st["shards"] += nshards
+        st["disagree"] += len(failing)
+        shard_fails.extend(shard_fail)
+        for meta in failing:
+            if st["reported"] >= MAX_REPLAYS:
+                break
+            view = cs.model_view(cs.terms[cs.metas.index(meta)]) if st["reported"] < 2 else None
+            _report(run, meta, {"model_view": view})
+            st["reported"] += 1
+
+    def new_cases():
+        return core.Cases(ID, "adjudicate", HEADER, CTYPE, CHECK, show=SHOW, shard=320)
+
+    cs = new_cases()
+    t0 = time.time()
     for cat, pos in streams(run):
         w, h, crash = observe(pos)
-        meta = {"category": cat, "position": takio.j_pos(pos), "hash": poshash(pos)}
+        pk = pack(pos)
+        meta = {"category": cat, "pk": pk}
+        st["total"] += 1
         if crash:
             crashes.append(meta)
             continue
         cs.add(case_term(pos, w, h), meta)
-        if meta["hash"] in seen:
+        if len(cs) >= BATCH:
+            st["gen_s"] += time.time() - t0
+            flush(cs)
+            cs = new_cases()
+            t0 = time.time()
+        # statistics over distinct inputs (size, ply parity, reserves, board)
+        hk = poshash(pk)
+        if hk in seen:
             continue
-        seen.add(meta["hash"])
+        seen.add(hk)
         ow, oh, comp = oracle(pos)
         oc = outcome_class(w)
         dist["size"][pos.size] = dist["size"].get(pos.size, 0) + 1
@@ -464,46 +514,31 @@ def correspondence(run):
         dist["category"][c0] = dist["category"].get(c0, 0) + 1
         dist["outcome"][oc] = dist["outcome"].get(oc, 0) + 1
         if ow[1] is not None or comp[0] >= pos.size:
-            nontrivial += 1
+            st["nontrivial"] += 1
         if comp[1]:
             dist["both_roads"] += 1
         if ow[1] is not None and ow[1].name == "FLATS" and not all(pos.board):
             dist["reserve_end"] += 1
         if len(samples) < 4 and oc != "not-over" and pos.size >= 5:
-            samples.append({"position": meta["position"]["tps"] or meta["position"], "stones": meta["position"]["stones"],
-                            "impl": j_out(w, h)})
-    # balance the shards (8x8 full boards cost ~40 ms each in Coq, 3x3 ones < 1 ms): corpus first, the rest shuffled
-    k0 = sum(1 for m in cs.metas if m["category"].startswith("corpus:"))
-    order = list(range(k0, len(cs.terms)))
-    run.rng.shuffle(order)
-    order = list(range(k0)) + order
-    cs.terms = [cs.terms[i] for i in order]
-    cs.metas = [cs.metas[i] for i in order]
-    gen_s = time.time() - t0
-    t1 = time.time()
-    failing, shard_fail, nshards = cs.run()
-    run.extra["c02_gen_s"] = round(gen_s, 1)
-    run.extra["c02_coq_s"] = round(time.time() - t1, 1)
-    run.oblige(f"correspondence:adjudicate ({nshards} shards)", not shard_fail, str(shard_fail)[:1500])
-    run.oblige("correspondence:no exception escapes winner()/has_road()", not crashes, str(crashes[:2])[:800])
-    run.count(len(cs), nontrivial,
+            jp = takio.j_pos(pos)
+            samples.append({"position": jp["tps"] or jp, "stones": jp["stones"], "impl": j_out(w, h)})
+    st["gen_s"] += time.time() - t0
+    flush(cs)
+    run.extra["c02_gen_s"] = round(st["gen_s"], 1)
+    run.extra["c02_coq_s"] = round(st["coq_s"], 1)
+    run.oblige(f"correspondence:adjudicate ({st['shards']} shards)", not shard_fails, str(shard_fails)[:1500])
+    run.oblige("correspondence:no exception escapes winner()/has_road()", not crashes,
+               str([c["category"] for c in crashes[:5]]))
+    run.count(st["total"], st["nontrivial"],
               "positions (random boards sizes 3-8 x densities .25/.5/.75/1, full boards with equal top flats, "
               "self-avoiding edge-to-edge roads perturbed by wall/capstone/buried/hole/crossing/parallel road, playout "
               "positions; both ply parities; reserve states plenty/exhausted/capstone-only/one-left): winner() and "
               "has_road() compared with model/Road.v inside Coq; distinct by (size, ply parity, reserves, board); "
               "non-trivial = the game is over or some road component has >= size squares",
               samples, dist, label="adjudicate")
-    n_rep = 0
     for meta in crashes[:MAX_REPLAYS]:
-        _report(run, cs, meta)
-        n_rep += 1
-    for meta in failing:
-        if n_rep >= MAX_REPLAYS:
-            break
-        view = cs.model_view(cs.terms[cs.metas.index(meta)]) if n_rep < 2 else None
-        _report(run, cs, meta, {"model_view": view})
-        n_rep += 1
-    run.extra["c02_disagreements"] = len(failing) + len(crashes)
+        _report(run, meta)
+    run.extra["c02_disagreements"] = st["disagree"] + len(crashes)
 
 
 def search(run, broken):
@@ -515,8 +550,7 @@ def search(run, broken):
         w, h, crash = observe(pos)
         ow, oh, _ = oracle(pos)
         if crash or w != ow or h != oh:
-            meta = {"category": cat, "position": takio.j_pos(pos), "hash": poshash(pos)}
-            _report(run, None, meta, {"found_by": "search (oracle of the property statement)"})
+            _report(run, {"category": cat, "pk": pack(pos)}, {"found_by": "search (oracle of the property statement)"})
             return True
     return False
 
